@@ -188,8 +188,12 @@ def nontrivial(ctx):
 
 def classify(ctx, v):
     st = ctx.state
-    if ('pot chips never pushed' in v['what'] and st is not None
+    if (v['what'].startswith('terminal:') and st is not None
+            and ('pot chips never pushed' in v['what']
+                 or 'payoffs' in v['what'])
             and not any(st.statuses)
+            and not any(type(o).__name__ == 'ChipsPushing'
+                        for o in st.operations)
             and any(c[0] == 'show_or_muck_hole_cards' and c[1]
                     and c[1][0] is False for c in ctx.script)):
         return 'all_live_players_mucked'
